@@ -2,7 +2,7 @@
 ZipFileSystem in memory, VPKFileSystem from a VPK written by the encoder below, RawFileSystem)
 and real FileSystemChains, runs look-ups and walks, and logs what happened.  Modes:
   single <maxfiles> <out>         every file set over the model's names x 4 backends
-  edges <edges.json> <out>        every add_sys transition of specs/FsSem replayed on a real chain
+  edges <edges.json> <out> [nproc part]   every add_sys transition of specs/FsSem replayed on a real chain
   random <out>                    seeded random file sets / chains beyond the model's bounds
   replay <replay.json> <out>      re-execute the record stored in a replay file
 The driver only executes and serialises; every verdict is TLC's (specs/FsSemTrace.tla).
@@ -77,17 +77,23 @@ class Factory:
         self.cache: dict = {}
 
     def build(self, backend: str, files: list, footer: bool = False):
-        """files: [(comps, cid)] -> a real filesystem object holding exactly these files."""
+        """files: [(comps, cid)] -> a real filesystem object holding exactly these files.
+        footer = the alternative layout of the fixture (VPK: data after the tree instead of preload;
+        zip: explicit directory entries; virtual: text instead of bytes values; raw: none)."""
         key = (backend, footer, json.dumps(files))
         if key in self.cache:
             return self.cache[key]
         self.n += 1
         named = [('/'.join(c), cid.encode('utf-8')) for c, cid in files]
         if backend == 'virtual':
-            fs = VirtualFileSystem(dict(named))
+            # variant: contents given as text instead of bytes
+            fs = VirtualFileSystem({n: (d.decode('utf-8') if footer else d) for n, d in named})
         elif backend == 'zip':
             buf = io.BytesIO()
             with zipfile.ZipFile(buf, 'w') as zf:
+                if footer:      # variant: the archive also has entries for the directories themselves
+                    for folder in sorted({'/'.join(c[:k]) + '/' for c, _ in files for k in range(1, len(c))}):
+                        zf.writestr(folder, b'')
                 for name, data in named:
                     zf.writestr(name, data)
             fs = ZipFileSystem('<mem>', zipfile=zipfile.ZipFile(io.BytesIO(buf.getvalue())))
@@ -152,11 +158,11 @@ def do_lookup(fs, toks: list) -> dict:
             'cs': cs or '', 'cse': cse}
 
 
-def do_walk(fs, toks: list) -> dict:
+def do_walk(fs, toks: list, via_iter: bool = False) -> dict:
     arg = tok_str(toks)
     items = []
     try:
-        for f in fs.walk_folder(arg):
+        for f in (iter(fs) if via_iter else fs.walk_folder(arg)):
             c, ce = exc_name(lambda: read_bin(f.open_bin()))
             lk, le = exc_name(lambda: read_bin(fs[f.path].open_bin()))
             items.append({'n': f.path.split('/'), 'c': c or '', 'ce': ce, 'l': lk or '', 'le': le})
@@ -208,6 +214,8 @@ def fs_record(fac: Factory, backend: str, files: list, lookups: list, folders: l
     for toks in folders:
         r = do_walk(fs, toks)
         wks.append(r)
+        if not toks:      # iteration is defined as the walk of the empty folder
+            wks.append(do_walk(fs, toks, via_iter=True))
     return {'k': 'fs', 'src': src, 'backend': backend, 'files': [[c, cid] for c, cid in files],
             'fold': fold_table(all_comps(files, lookups + folders), [c for w in wks for it in w['items'] for c in it['n']]),
             'lookups': lks, 'walks': wks, 'footer': footer,
@@ -322,31 +330,39 @@ def chain_record(fac: Factory, pre: list, act: dict, lookups: list, folders: lis
         log.clear()
         c, ce = exc_name(lambda: read_bin(chain[name].open_bin()))
         cl = calls('get')
+        owner, _ = exc_name(lambda: pos[next(k for k, sp in spies.items() if sp.inner is FileSystemChain.get_system(chain[name]))])
+        log.clear()
         has, hase = exc_name(lambda: name in chain)
         log.clear()
         cb, cbe = exc_name(lambda: read_bin(chain.open_bin(name)))
         log.clear()
         lks.append({'toks': toks, 'has': bool(has), 'hase': hase, 'c': c or '', 'ce': ce, 'cb': cb or '', 'cbe': cbe,
-                    'calls': cl})
+                    'calls': cl, 'owner': owner or 0})
     wks = []
-    for toks in folders:
-        arg = tok_str(toks)
+    def one_walk(toks, start):
         log.clear()
-        items, e = [], ''
+        items, e, rep = [], '', []
         try:
-            listed = list(chain.walk_folder(arg))
+            listed = list(start())
             cl = calls('walk')
             for f in listed:
                 c, ce = exc_name(lambda: read_bin(f.open_bin()))
                 lk, le = exc_name(lambda: read_bin(chain[f.path].open_bin()))
                 items.append({'n': f.path.split('/'), 'c': c or '', 'ce': ce, 'l': lk or '', 'le': le})
+            # the same walk without de-duplication
+            log.clear()
+            rep = [{'n': f.path.split('/'), 'c': read_bin(f.open_bin())} for f in chain.walk_folder_repeat(tok_str(toks))]
         except Exception as exc:
             e = type(exc).__name__
             cl = calls('walk')
         log.clear()
-        wks.append({'toks': toks, 'e': e, 'items': items, 'calls': cl})
+        return {'toks': toks, 'e': e, 'items': items, 'calls': cl, 'rep': rep}
+    for toks in folders:
+        wks.append(one_walk(toks, lambda: chain.walk_folder(tok_str(toks))))
+        if not toks:
+            wks.append(one_walk(toks, lambda: iter(chain)))
     comps = all_comps([f for k in order for f in mem_files[k]], lookups + folders)
-    comps += [c for w in wks for it in w['items'] for c in it['n']]
+    comps += [c for w in wks for it in w['items'] + w['rep'] for c in it['n']]
     comps += [c for m in members for c in m['pfx']]
     comps += [c for q in lks + wks for cl in q['calls'] for c in cl['argc']]
     comps += [c for w in wks for cl in w['calls'] for it in cl['items'] for c in it['n']]
@@ -366,10 +382,12 @@ def pick_backend(rng_key: str, names: list) -> str:
     return 'virtual'
 
 
-def replay_edges(out: hlib.RecWriter, fac: Factory, edge_file: str, stats: dict) -> None:
+def replay_edges(out: hlib.RecWriter, fac: Factory, edge_file: str, stats: dict, nproc: int = 1, part: int = 0) -> None:
     edges = [e for e in json.load(open(edge_file)) if e.get('tag') == 'EDGE']
     seed = hlib.seed()
     for ei, e in enumerate(edges):
+        if ei % nproc != part:
+            continue
         a = e['a']
         k_new = len(e['s']) + 1
         pre = [{'names': sorted(m['names']), 'pfx': list(m['pfx']), 'k': m['k'],
@@ -414,7 +432,7 @@ def random_tier(out: hlib.RecWriter, fac: Factory, rng: random.Random, n_fs: int
         if backend == 'raw' and not unambiguous(files):
             backend = 'zip'
         lk, fl = queries(files)
-        out.write(fs_record(fac, backend, files, lk, fl, 'rnd', footer=(backend == 'vpk' and rng.random() < 0.5)))
+        out.write(fs_record(fac, backend, files, lk, fl, 'rnd', footer=rng.random() < 0.5))
     for i in range(n_chain):
         n_mem = rng.randint(2, 5)
         mems = []
@@ -448,7 +466,8 @@ def main() -> None:
             single_family(out, fac, int(sys.argv[2]))
         elif mode == 'edges':
             out = hlib.RecWriter(sys.argv[3])
-            replay_edges(out, fac, sys.argv[2], stats)
+            replay_edges(out, fac, sys.argv[2], stats, int(sys.argv[4]) if len(sys.argv) > 4 else 1,
+                         int(sys.argv[5]) if len(sys.argv) > 5 else 0)
         elif mode == 'random':
             out = hlib.RecWriter(sys.argv[2])
             rng = random.Random(hlib.seed() * 15485863 + 19)
